@@ -13,7 +13,8 @@ PROP = dict(
     harness=[dict(name="truncation", pkg=".", run="^TestVerif_C13$",
                   files={"zz_verif_fixture_test.go": "harness/main/fixture_test.go",
                          "zz_verif_c13_test.go": "harness/main/c13_test.go",
-                         "zz_verif_c13b_test.go": "harness/main/c13b_test.go"},
+                         "zz_verif_c13b_test.go": "harness/main/c13b_test.go",
+                         "zz_verif_c13c_test.go": "harness/main/c13c_test.go"},
                   env=_MANIFEST_ENV, timeout=600, timeout_thorough=2400)],
     technique="Coq proof, once for all reader programs over a read oracle (logical-relation / monotonicity argument), instantiated by the repository's readers and proved again on the byte-level reader models of C04/C05/C06 (whose correspondence checks tie them to the Go readers) + truncation sweep on the real readers with recorded read traces checked by the model",
     level_text="Theorem (Coq, no axioms) for EVERY reader program (return / fail / positioned read whose failure aborts), every file and every cut: the truncated copy yields the complete file's result or a read error, never another answer; monotone in the read oracle in general; a failed read always ends in a read error. The compact-index program is proved equal to the byte-level lookup model. Tie: one generated epoch, all file kinds (4 compact-index kinds, sig-exists, block-time, gsfa pubkey index / linked log / manifest, CAR via ReaderAt and via bufio); cut points exhaustive for small files, boundaries +-2 and a random sample for large ones, x every stored key and absent keys (~1.6*10^5 lookups quick); the four compact-index kinds are opened over an io.ReaderAt twice, as a local index and as the server opens a remote one (OpenWithReader_* then Prefetch(true)), plus a generated 3-bucket cid-to-offset-and-size index whose buckets exceed the prefetch window (cuts at header / bucket-header / window / bucket ends +-2, inside every read of a lookup, and a sample); the gsfa manifest is cut at EVERY offset and opened through gsfa.NewGsfaReader and manifest.NewManifest (+ReadAll): the open fails or version, metadata and tuples are the complete file's, and the open leaves the file's bytes untouched (the two cuts the format cannot detect - offset 0 and exactly between two tuples - are recorded, see VERIF_C13_MANIFEST_UNDETECTABLE); every ReadAt of the real readers is recorded and the Coq checker confirms no reader answers after a failed read (prefetch-off runs; with prefetch on the advisory read-ahead may fail and is discarded).",
@@ -27,3 +28,7 @@ PROP = dict(
 PROP["technique"] += " + (Bucket).loadEntry / unmarshalEntry translated on every run (GoLite): a short read yields the reader's error, never an entry"
 PROP["level_text"] += "; the compact index's entry loader itself ((Bucket).loadEntry, unmarshalEntry) is translated from the Go source on every run and proved, for every positioned reader, to return the decoded entry on a complete read and the reader's error on a short read (C13_translated_loadEntry_complete_or_readers_error)"
 PROP["trusted"] = ["translator gen/golite.go and the semantics coq/GoLite.v (DESIGN.md section 10a); (*io.SectionReader).ReadAt is an oracle of the theorem"] + list(PROP.get("trusted", []))
+
+# repeated and concurrent lookups (c13c_test.go)
+PROP["level_text"] += "; the oracle is applied to EVERY lookup on an open reader, not only the first: at every directed / boundary cut (and a quarter of the sampled ones) each key is looked up three times on the same open reader (all kinds; sig-exists also through bucketteer.Open (mmap) and an *os.File over a copy truncated on disk, and on a generated sig-exists file with 7/5/2/1 signatures per prefix cut at every offset; gsfa through one reader per truncated directory; CAR through one ReaderAt / one seekable data reader per truncated copy), and for the compact-index kinds (prefetch off and on) and sig-exists 8 lookups of keys that share their first read (same bucket / prefix, the same key included) are issued at the same time on one open reader over a truncated copy served by a ReaderAt that holds every read until all running lookups have issued theirs (lock step; or only the first read of each), 6 rounds per cut and group, cuts inside the bucket header / bucket count, inside entry reads and a few random ones (signatures truncated-file-answers-differently-on-repeated-lookup:*, truncated-file-answers-differently-under-concurrent-lookups:*)"
+PROP["level_note"] += " The concurrent rounds force the overlap with a barrier inside the harness's ReaderAt; no verdict depends on timing (a 30 ms timer only releases the barrier when a lookup waits for another lookup instead of reading)."
